@@ -1007,7 +1007,7 @@ def r16_3_decisions(ctx):
         for c in rc:
             st = enclosing_stmt(c)
             a0 = f.copies.expand(c.args[0], 1) if c.args else None
-            if isinstance(st, ast.Assign) and isinstance(st.targets[0], ast.Tuple) and a0 is not None and norm(a0) == '%s[0]' % lst \
+            if isinstance(st, ast.Assign) and isinstance(st.targets[0], ast.Tuple) and a0 is not None and '%s[0]' % lst in (norm(a0), norm(c.args[0])) \
                     and norm(c.func.value) == 'self.__recognizer' and ('%s == _Any' % tp, False) in {G.canon_atom(g, p) for g, p in f.guards(c)}:
                 vv = norm(st.targets[0].elts[0])
                 rs = [x for x in f.raises() if f.card(x, vv) == {0}]
